@@ -369,6 +369,26 @@ def getRootUnits (R : Registry) (u : UC) : Except Err (Rat × UC) :=
   | .error e => .error e
   | .ok acc => .ok (acc.factor, acc.units.dropZeros)
 
+/-- the unit part of `_get_root_units_recurse` alone (defined even where the factor is not an
+    exact rational) -/
+def rootUnitsRec (R : Registry) : Nat → UC → Rat → UC → Except Err UC
+  | 0, _, _, _ => .error .recursion
+  | fuel + 1, ref, exp, acc =>
+    foldItems (fun k e acc =>
+      match R.resolve k with
+      | .error x => .error x
+      | .ok (_, none) => .error .key
+      | .ok (key, some d) =>
+        if d.isBase then .ok (acc.acc key (exp * e))
+        else rootUnitsRec R fuel d.ref (exp * e) acc) ref acc
+
+/-- `_get_root_units(u)[1]` -/
+def getRootUnitsOnly (R : Registry) (u : UC) : Except Err UC :=
+  if u.isEmpty then .ok [] else
+  match R.rootUnitsRec R.fuelOf u 1 [] with
+  | .error e => .error e
+  | .ok acc => .ok acc.dropZeros
+
 /-- `_get_conversion_factor` (cache omitted) -/
 def convFactor (R : Registry) (src dst : UC) : Except Err Rat :=
   match R.getDimensionality src, R.getDimensionality dst with
